@@ -326,11 +326,23 @@ def r3(ctx):
         ctx.check((got == want or (want.startswith("Err") and got.startswith("Err"))) and okr, "C08.R3", b.path, "fp=xor-fold-over-get_range(range)[%s]" % ("+".join(items) or "empty"),
                   "returns %s over get_range%s; spec %s (every element of the same range folded once, from Fingerprint::empty(); a storage error is reported)" % (got, st["ranges"], want), b.sp)
     fx = f.body("<ranger::Fingerprint as std::ops::BitXorAssign>::bitxor_assign")
-    ctx.touch(fx)
-    xs = [s for _, _, s in fx.statements() if s["k"] == "assign" and s["r"][0] == "bin" and s["r"][1] == "BitXor"]
-    xc = [t for _, t in fx.calls() if t["f"].get("name") in ("bitxor_assign", "bitxor") and "u8" in t["f"].get("full", "")]
-    zipped = any(t["f"].get("name") == "zip" for _, t in fx.calls())
-    ctx.check(len(xs) + len(xc) >= 1 and zipped, "C08.R3", fx.path, "is-bytewise-xor", "self.0 zip rhs.0, a ^= b (%d xor ops)" % (len(xs) + len(xc)), fx.sp)
+    ctx.touch(*f.family(fx.path))
+    # evaluated on two concrete 32-byte values: the result must be their bytewise xor (loop, zip or for_each alike)
+    from . import coll
+    C = coll.Collections(f)
+    A = [(7 * i + 3) & 0xFF for i in range(32)]
+    B = [(29 * i + 101) & 0xFF for i in range(32)]
+    heap = {"self": E.struct(f, "ranger::Fingerprint", **{"0": coll.seq("vec", [E.Int(v) for v in A])}), "rhs": E.struct(f, "ranger::Fingerprint", **{"0": coll.seq("vec", [E.Int(v) for v in B])})}
+    try:
+        rhs_arg = E.href("rhs") if fx.locals[2]["ty"].startswith("&") else heap["rhs"]
+        ret, itp = E.run_it(f, fx.path, [E.href("self"), rhs_arg], heap, lambda k, n, p_, s_: C.handle(k, n, p_, s_))
+        res = E.field(f, itp.heap["self"], "ranger::Fingerprint", "0")
+        gotx = [itp.resolve(v)[1] if E.is_int(itp.resolve(v)) else None for v in res[2]] if coll.is_seq(res) else None
+        detx = "self.0 after `self ^= rhs` on two sample values: %s" % ("the bytewise xor" if gotx == [a ^ b for a, b in zip(A, B)] else gotx)
+        okx = gotx == [a ^ b for a, b in zip(A, B)]
+    except E.Unsupported as e:
+        okx, detx = False, "UNSUPPORTED-FORM: %s" % e
+    ctx.check(okx, "C08.R3", fx.path, "is-bytewise-xor", detx, fx.sp)
     fe = f.body("ranger::Fingerprint::empty")
     ctx.touch(fe)
     g = f.body(SI + "get_first")
